@@ -75,6 +75,23 @@ class C05(Prop):
             h1 = dense_hand(rng)
             h2 = neighbour(rng, h1) if rng.random() < 0.7 else dense_hand(rng)
             p = list(h1); rng.shuffle(p)
+            r = rng.random()
+            if r < 0.08:
+                # every straight and straight flush (the wheel and broadway included) written in rank order, downwards or
+                # upwards, with the ace at either end: the orders a person -- and a shortcut in the code -- would use
+                top = rng.randrange(5, 15)
+                vals = [top - i for i in range(5)]
+                su = rng.choice(SUITS)
+                h1 = [RANKS[(v - 2) % 13] + (su if rng.random() < 0.6 else rng.choice(SUITS)) for v in vals]
+                if len(set(h1)) == 5:
+                    p = h1[::-1] if rng.random() < 0.5 else h1[1:] + h1[:1]
+                    if rng.random() < 0.5:
+                        h1, p = p, h1
+                    h2 = neighbour(rng, h1)
+                else:
+                    h1 = dense_hand(rng); p = list(h1)
+            elif r < 0.2:
+                p = sorted(h1, key=lambda c_: RANKS.index(c_[0]), reverse=rng.random() < 0.5)      # or simply sorted by rank
             c = {"h1": h1, "h2": h2, "perm": p}
             if rng.random() < 0.3:
                 c["pre"] = rng.randrange(1, 1 << 16)
@@ -201,8 +218,15 @@ def dense_deal(rng, nboard=5, sizes=(4, 2)):
     """board + disjoint hands from a dense sub-deck (few ranks / consecutive ranks across the ace / one-two suits)"""
     need = nboard + sum(sizes)
     for _ in range(20):
-        style = rng.randrange(7)
-        if style == 0:
+        style = rng.randrange(8)
+        if style == 7:
+            # straight-flush textures: a window of seven consecutive ranks (across the ace too) in ONE suit plus the same ranks
+            # in one other suit -- several straights through the same hole cards, of which only some are straight flushes
+            i = rng.randrange(-1, 8)
+            win = [RANKS[j] for j in range(i, min(13, i + 7))] if i >= 0 else ["A", "2", "3", "4", "5", "6", "7"]
+            s2 = rng.sample(SUITS, 2)
+            pool = [c for c in DECK if c[0] in win and c[1] in s2]
+        elif style == 0:
             ranks = rng.sample(RANKS, rng.randrange(3, 6)); pool = [c for c in DECK if c[0] in ranks]
         elif style == 1:
             i = rng.randrange(-1, 8)
